@@ -272,7 +272,7 @@ def run(tier, seed, jobs, deadline, report):
         "parse(en, cache limit 1)", "parse(fr, cache limit 1)", "parse(de, cache limit 2)", "persistent S1 parser",
         "search(fr, S1)", "parse(num, en+fr region PF)", "parse(invalid fr date, default settings)")}
     if T:
-        res = _explore(full, 3, core, 4, jobs, deadline, seed)
+        res = _explore(full, 3, core, 4, jobs, deadline, seed, extend_from=all_core)
     else:
         core = quick_core
         res = _explore(full, 2, core, 3, jobs, deadline, seed, extend_from=all_core)
